@@ -551,6 +551,10 @@ func (x *fx) havocVal(prefix string, t types.Type) *Val {
 		}
 		return r
 	}
+	if b, ok := t.(*types.Basic); ok && b.Kind() == types.Invalid {
+		// an unused component of a map-range step (go/ssa gives it no type)
+		return &Val{T: t, S: "0"}
+	}
 	n := x.fresh(prefix, x.sortOf(t))
 	r := &Val{T: t, S: n}
 	x.assume(x.valid(r.S, t, x.curTop()))
